@@ -58,6 +58,8 @@ def gen_plan(rng, index, tier):
     if rng.random() < 0.3:
         bp["fuel_target"] = "clad"  # the blueprint designates the clad, not the fuel, as the fuel blocks' target
     cfg = {"reactor": "gen", "blueprint": bp, "settings": {"nCycles": 1, "burnSteps": 1, "detailedAxialExpansion": True}, "actors": []}
+    if rng.random() < 0.25:
+        cfg["sharedComposition"] = True
     if nfuel >= 2 and not bp.get("fuel_target") and rng.random() < 0.35:
         cfg["lockOneFuelBlockToClad"] = rng.randrange(8)
     steps = []
@@ -141,6 +143,14 @@ class Runner:
         self.r = o.r
         self.log = log
         self.asms = list(o.r.core)
+        if plan["config"].get("sharedComposition"):
+            # an analyst script gave the fuel of an assembly its composition from one dict (the same object)
+            for a in self.asms:
+                fuels = [b.getComponentByName("fuel") for b in a if b.getComponentByName("fuel") is not None]
+                if len(fuels) >= 2:
+                    nd = dict(fuels[0].p.numberDensities)
+                    for f in fuels:
+                        f.p.numberDensities = nd
         self.ledgers = {id(a): Ledger(a) for a in self.asms}
         lock = plan["config"].get("lockOneFuelBlockToClad")
         if lock is not None:
